@@ -9,10 +9,12 @@ import (
 	"path/filepath"
 	"strings"
 
+	bcli "github.com/aperturerobotics/bifrost/cli"
 	"github.com/aperturerobotics/bifrost/crypto"
 	"github.com/aperturerobotics/bifrost/keypem"
 	"github.com/aperturerobotics/bifrost/keypem/keyfile"
 	"github.com/aperturerobotics/bifrost/peer"
+	acli "github.com/aperturerobotics/cli"
 	"github.com/sirupsen/logrus"
 	"verifharness/internal/hx"
 )
@@ -303,6 +305,160 @@ func c39(c *hx.Ctx) {
 		_ = os.Chmod(filepath.Join(dir, "locked"), 0o755)
 		_ = os.RemoveAll(dir)
 	}
+	c39Load(c, scen, base, root)
 	c.Extra["running_as_root"] = root
 	c.Extra["skipped_permission_scenarios"] = skipped
+}
+
+// c39Load: cli EnvelopeArgs.loadPrivKeys / loadPubKeys on lists of 1-3 key
+// paths mixing good and bad file states.
+func c39Load(c *hx.Ctx, scen []kfScenario, base string, root bool) {
+	var usable []kfScenario
+	for _, s := range scen {
+		if root && (s.name == "unreadable-file" || s.name == "unsearchable-parent") {
+			continue
+		}
+		usable = append(usable, s)
+	}
+	var good []kfScenario
+	for _, s := range usable {
+		if s.exp == expNewKey || s.exp == expStored {
+			good = append(good, s)
+		}
+	}
+	n := c.N / 2
+	for i := 0; i < n; i++ {
+		dir, err := os.MkdirTemp(base, "l")
+		if err != nil {
+			panic(err)
+		}
+		np := 1 + c.Rng.Intn(3)
+		if i < len(usable) {
+			np = 1 + i%3
+		}
+		var paths, names, sts, prs []string
+		var storedKeys []crypto.PrivKey
+		var exps []int
+		anyBad := false
+		for j := 0; j < np; j++ {
+			var s kfScenario
+			switch {
+			case i < len(usable) && j == i%np: // every state at least once, at every position
+				s = usable[i]
+			case c.Rng.Intn(3) != 0:
+				s = good[c.Rng.Intn(len(good))]
+			default:
+				s = usable[c.Rng.Intn(len(usable))]
+			}
+			sub := filepath.Join(dir, "p"+string(rune('0'+j)))
+			if err := os.Mkdir(sub, 0o755); err != nil {
+				panic(err)
+			}
+			stored, _, _ := crypto.GenerateEd25519Key(bytes.NewReader(c.RandBytes(32)))
+			path, st := s.setup(c, sub, stored)
+			pr := "None"
+			if before, err := os.ReadFile(path); err == nil {
+				pr = pemRes(before)
+			}
+			paths, names, sts, prs = append(paths, path), append(names, s.name), append(sts, st), append(prs, pr)
+			storedKeys, exps = append(storedKeys, stored), append(exps, s.exp)
+			if s.exp == expError || s.exp == expWriteFails {
+				anyBad = true
+			}
+		}
+		pub := i%3 == 2
+		kind := "loadPrivKeys"
+		if pub {
+			kind = "loadPubKeys"
+		}
+		c.Class(kind + "-" + strings.Join(names, "+"))
+		desc := map[string]any{"kind": kind, "states": names}
+		args := &bcli.EnvelopeArgs{KeyPaths: *acli.NewStringSlice(paths...)}
+		var privs []crypto.PrivKey
+		var pubs []crypto.PubKey
+		var lerr error
+		p, _ := hx.Catch(func() {
+			if pub {
+				pubs, lerr = args.VerifLoadPubKeys()
+			} else {
+				privs, lerr = args.VerifLoadPrivKeys()
+			}
+		})
+		count := len(privs) + len(pubs)
+		// path terms: generated key = the key returned at that index, if any
+		terms := make([]string, np)
+		for j := range paths {
+			gen := "None"
+			if strings.HasPrefix(sts[j], "FMissing") {
+				gen = hx.Opt(true, hx.Bytes(make([]byte, 64)))
+				if !pub && lerr == nil && j < len(privs) && privs[j] != nil {
+					gen = hx.Opt(true, hx.Bytes(rawPriv(privs[j])))
+				}
+				if pub && lerr == nil && j < len(pubs) && pubs[j] != nil {
+					gen = hx.Opt(true, hx.Bytes(cat(make([]byte, 32), rawPub(pubs[j]))))
+				}
+			}
+			terms[j] = "(" + prs[j] + ", (" + sts[j] + ", " + gen + ", " + hx.Bool(exps[j] == expNewKey) + "))"
+		}
+		var o string
+		switch {
+		case p:
+			o = oPanic
+		case lerr != nil:
+			o = oErr(0)
+		case pub:
+			items := make([]string, len(pubs))
+			for j, k := range pubs {
+				items[j] = hx.Bytes(rawPub(k))
+			}
+			o = oOk(hx.List(items))
+		default:
+			items := make([]string, len(privs))
+			for j, k := range privs {
+				items[j] = optKey(k != nil, rawPriv(k))
+			}
+			o = oOk(hx.List(items))
+		}
+		ctor := "LoadPriv"
+		if pub {
+			ctor = "LoadPub"
+		}
+		c.Case(hx.App(ctor, hx.List(terms), o), desc)
+		switch {
+		case p:
+			c.Failf("loadkeys-panic", desc, "%s panicked", kind)
+		case lerr == nil && anyBad:
+			c.Failf("loadprivkeys-bad-file-no-error", desc, "%s returned no error (%d keys) although a listed key file is empty / not a key / unreadable", kind, count)
+		case lerr == nil && count != np:
+			c.Failf("loadkeys-wrong-count", desc, "%s returned %d keys for %d paths", kind, count, np)
+		case lerr != nil && !anyBad:
+			c.Failf("loadkeys-good-files-rejected", desc, "%s failed on usable key files: %v", kind, lerr)
+		case lerr == nil:
+			c.Nontrivial(kind + strings.Join(paths, ","))
+			for j := range paths {
+				var got, gotPub []byte
+				if pub {
+					gotPub = rawPub(pubs[j])
+				} else {
+					if privs[j] == nil {
+						c.Failf("loadkeys-nil-key", desc, "%s returned a nil key at index %d", kind, j)
+						continue
+					}
+					got, gotPub = rawPriv(privs[j]), rawPub(privs[j].GetPublic())
+				}
+				if exps[j] == expStored {
+					if (!pub && !bytes.Equal(got, rawPriv(storedKeys[j]))) || !bytes.Equal(gotPub, rawPub(storedKeys[j].GetPublic())) {
+						c.Failf("loadkeys-wrong-key", desc, "%s: key %d is not the key stored in the file", kind, j)
+					}
+				}
+			}
+		}
+		_ = filepath.Walk(dir, func(p string, info os.FileInfo, err error) error {
+			if err == nil {
+				_ = os.Chmod(p, 0o755)
+			}
+			return nil
+		})
+		_ = os.RemoveAll(dir)
+	}
 }
